@@ -32,7 +32,7 @@ RULE = ("cases = (dataset, 1-3 shared variables, pool of 2-4 queries, history of
         "sharing a variable with it whose result is a non-empty proper subset of the product; distinct = canonical JSON.")
 BUDGET = {"quick": (8, 220), "thorough": (16, 1200)}
 ASSUMPTIONS = ["two live result iterators over the same variables are never interleaved (take k, then close/drop)",
-               "a condition object is shared only between queries that select the same variables (and contains no negation)",
+               "a condition object shared between two queries contains no negation (not_() rewrites its operands in place)",
                "the fault is raised by user code (a @predicate function); nothing is asserted about its propagation, only "
                "about what later evaluations return"]
 
